@@ -169,6 +169,11 @@ func c12Ops() []roOp {
 					t, _ := n.MarshalText()
 					g, _ := n.GobEncode()
 					fmt.Fprint(&b, string(j), string(t), len(g), n.String(), n.Count(), n.First().String(), n.Get("en"), n.Equals(n))
+					for _, e := range n {
+						ej, _ := e.MarshalJSON()
+						et, _ := e.MarshalText()
+						fmt.Fprint(&b, e.String(), string(ej), string(et), e.Equals(e), fmt.Sprintf("%s|%v|%q", e, e, e))
+					}
 				}
 				return nil
 			})
